@@ -594,8 +594,11 @@ def run(ctx):
     # shared clause: each axis's boundary mode reaches the engine's slot of that axis -- otherwise the Euler step exchanges
     # matter with other neighbours than the kinetics functions do
     borrow(ctx, "C01", c15.rule_axis_table, py, tu)
+    # shared clause: per-environment constants and coefficients written under grouped keys reach every listed environment (C13.GROUPKEY)
+    from . import c13 as _c13
+    borrow(ctx, "C01", _c13.rule_groupkey, py)
     from .. import lints
-    lints.run(ctx, "C01", ctx.py, ["kinetics", "rdsystem", "librdengine"])
+    lints.run(ctx, "C01", ctx.py, ["kinetics", "rdsystem", "librdengine", "value_processing", "rdnetwork", "rdgraphspace", "rdgridspace"])
     ctx.assume("agreement to rounding is not decided; that the mean is harmonic is decided only relatively (all four "
                "implementations are the same symmetric rational function of the right dimension)")
     ctx.assume("RDSystem size invariant (state / chemostat map have space.size()*nspecies() entries) for the FFI extents")
